@@ -30,6 +30,13 @@ CHECKS = {
 
 NOT_APPLICABLE = []
 
+# per-property entries may also live in pygen/manifest.d/<id>.json (same keys as CHECKS values)
+_d = os.path.join(VERIF, "pygen", "manifest.d")
+if os.path.isdir(_d):
+    for f in sorted(os.listdir(_d)):
+        if f.endswith(".json"):
+            CHECKS[f[:-5]] = json.load(open(os.path.join(_d, f)))
+
 
 def main():
     checks = []
